@@ -24,6 +24,10 @@ int main(int argc, char** argv) {
     int nf = open(liblog.c_str(), O_WRONLY | O_CREAT | O_APPEND, 0644);
     if (nf >= 0) { dup2(nf, 1); close(nf); }
   }
+  // stdio allocates its buffers lazily, inside whatever library call prints first: give it static ones
+  static char so_buf[1 << 16], se_buf[1 << 12];
+  setvbuf(stdout, so_buf, _IOFBF, sizeof so_buf);
+  setvbuf(stderr, se_buf, _IOLBF, sizeof se_buf);
 #ifndef VERIF_NOSAN
   at::install();
 #endif
@@ -69,7 +73,11 @@ int main(int argc, char** argv) {
     special::enumerate(prop, tier, worker, nworkers, seed, one, extra_json);
   } else {
     // RC_PARAMS (seed, max_success, max_size) is set by the driver
+    // shrinking is rapidcheck's, but bounded: after the budget every further candidate "passes", which
+    // ends the shrink search at the smallest failing history found so far (then minimise() continues)
+    uint64_t shrink_execs = 0; const uint64_t shrink_budget = 1500;
     rc::check(prop.c_str(), [&](const std::vector<uint32_t>& choices) {
+      if (failed && ++shrink_execs > shrink_budget) return;
       Chooser ch(choices.data(), choices.size());
       History h = special::generate(ps, ch);
       if (!one(h)) RC_FAIL(ff.sig + " :: " + ff.msg);
